@@ -361,4 +361,23 @@ theorem C15_stream_state_history_counterexample :
 example : noReuseRun (Conn.init 2) [.frame 1 .headers false, .frame 1 .data true, .frame 3 .headers true, .respond 1,
     .frame 1 .windowUpdate false] := by decide
 
+/-- Whatever SETTINGS the peer sends (valid or not, any identifiers, any values),
+    sozu's own settings are untouched; in particular the bound the frame decoder
+    enforces stays the advertised SETTINGS_MAX_FRAME_SIZE: the verdict on every
+    input is the same before and after. -/
+theorem C15_receive_bound_is_local (s : SettingsState) (tableCap : Nat) (entries : List (Nat × Nat)) (input : Bytes) :
+    (handleSettings s tableCap entries).1.localS = s.localS ∧
+    connDecode (handleSettings s tableCap entries).1 input = connDecode s input :=
+  ⟨handleSettings_local s tableCap entries, by unfold connDecode; rw [handleSettings_local]⟩
+
+/-- the peer raises *its* MAX_FRAME_SIZE to 2^24-1: recorded on the peer side, a
+    16385-byte frame is still refused with FRAME_SIZE_ERROR; invalid values are PROTOCOL_ERROR -/
+example : (handleSettings SettingsState.init 65536 [(5, 16777215), (4, 1)]).1.peerS.maxFrameSize = 16777215 ∧
+    (handleSettings SettingsState.init 65536 [(5, 16777215), (4, 1)]).2 = none ∧
+    connDecode (handleSettings SettingsState.init 65536 [(5, 16777215)]).1 [0, 64, 1, 0x42, 0, 0, 0, 0, 0]
+      = .err FRAME_SIZE_ERROR := by decide
+example : (handleSettings SettingsState.init 65536 [(5, 16383)]).2 = some PROTOCOL_ERROR ∧
+    (handleSettings SettingsState.init 65536 [(2, 2)]).2 = some PROTOCOL_ERROR ∧
+    (handleSettings SettingsState.init 65536 [(4, 2147483648)]).2 = some PROTOCOL_ERROR := by decide
+
 end Sozu.H2Wire
